@@ -371,6 +371,11 @@ func (fv *FV) setupEntry(st *State) {
 	}
 	cx := &Cx{st: st, old: fv.entry, contract: true, scopePos: fv.fn.Body.Lbrace + 1, noOb: true, env: map[string]TV{}}
 	if fv.fc != nil {
+		for _, g := range fv.fc.GhostArgs {
+			if _, bound := fv.lets[g]; !bound {
+				fv.lets[g] = TV{T: fv.decl("ghost!"+g, SInt), Ty: tInt, S: SInt}
+			}
+		}
 		for _, l := range fv.fc.Lets {
 			tv := fv.expr(l.Expr, cx)
 			fv.lets[l.Name] = tv
@@ -805,6 +810,9 @@ func (fv *FV) doReturn(b *Block, st *State) {
 	}
 	// deferred calls run after the results are set
 	for i := len(fv.g.Defers) - 1; i >= 0; i-- {
+		if b.Ret != nil && len(fv.g.Loops) == 0 && fv.g.Defers[i].Pos() > b.Ret.Pos() {
+			continue // loop-free body: a defer statement that comes after this return has not been executed
+		}
 		fv.callStmt(fv.g.Defers[i].Call, cx)
 	}
 	if len(fv.g.Defers) > 0 {
@@ -942,6 +950,8 @@ func cellField(cell string) string {
 		return "MapDom." + cell[3:]
 	case strings.HasPrefix(cell, "MV!"):
 		return "MapVal." + cell[3:]
+	case strings.HasPrefix(cell, "P!"):
+		return "Ptr." + cell[2:]
 	}
 	return cell
 }
@@ -951,7 +961,7 @@ func (fv *FV) refTypeOfField(fname string) types.Type {
 	if k < 0 {
 		return nil
 	}
-	if obj, ok := fv.u.Pkg.Types.Scope().Lookup(fname[:k]).(*types.TypeName); ok {
+	if obj := fv.u.lookupTypeName(fname[:k]); obj != nil {
 		return types.NewPointer(obj.Type())
 	}
 	return nil
